@@ -758,8 +758,8 @@ def nnf_of_src(src, rename=None):
     return nnf(ast.parse(src, mode="eval").body, False, rename)
 
 
-def raw_reaching_def(name, stmt):
-    """The unique straight-line `name = value` that reaches ``stmt`` (scanning the
+def raw_reaching_def_stmt(name, stmt):
+    """The unique straight-line `name = value` statement that reaches ``stmt`` (scanning the
     enclosing blocks backwards); None if a compound statement in between may rebind it."""
     cur = stmt
     while cur is not None and not isinstance(cur, FUNC_TYPES):
@@ -768,7 +768,7 @@ def raw_reaching_def(name, stmt):
             p, f, lst, i = blk
             for s in reversed(lst[:i]):
                 if isinstance(s, ast.Assign) and len(s.targets) == 1 and isinstance(s.targets[0], ast.Name) and s.targets[0].id == name:
-                    return s.value
+                    return s
                 if name in assigned_names(s):
                     return None
             if isinstance(p, (ast.For, ast.AsyncFor)) and name in {x.id for x in ast.walk(p.target) if isinstance(x, ast.Name)}:
@@ -777,19 +777,32 @@ def raw_reaching_def(name, stmt):
     return None
 
 
-def inline_temporaries(expr, stmt, fn, depth=3, only=None):
-    """Substitute local single-reaching-definition temporaries (not parameters) into expr, a few levels deep
-    (restricted to the names in ``only`` when given)."""
+def raw_reaching_def(name, stmt):
+    s = raw_reaching_def_stmt(name, stmt)
+    return s.value if s is not None else None
+
+
+def inline_temporaries(expr, stmt, fn, depth=4, only=None):
+    """Substitute local single-reaching-definition temporaries (not parameters) into expr, position-aware
+    (names inside a substituted definition are resolved at that definition), a few levels deep;
+    restricted to the names in ``only`` when given."""
     params = set(param_names(fn))
-    cur = clone(expr)
-    for _ in range(depth):
-        env = {}
-        for n in ast.walk(cur):
-            if isinstance(n, ast.Name) and isinstance(n.ctx, ast.Load) and n.id not in params and n.id not in env and (only is None or n.id in only):
-                v = raw_reaching_def(n.id, stmt)
-                if v is not None:
-                    env[n.id] = v
-        if not env:
-            break
-        cur = _Subst(env, False).visit(cur)
-    return cur
+
+    def rec(e, at, d):
+        if d <= 0:
+            return clone(e)
+
+        class T(ast.NodeTransformer):
+            def visit_Name(self, n):
+                if isinstance(n.ctx, ast.Load) and n.id not in params and (only is None or n.id in only):
+                    ds = raw_reaching_def_stmt(n.id, at)
+                    if ds is not None:
+                        return rec(ds.value, ds, d - 1)
+                return n
+
+            def visit_Lambda(self, n):
+                return n
+
+        return T().visit(clone(e))
+
+    return rec(expr, stmt, depth)
